@@ -42,7 +42,7 @@ BOUNDS = {
     "thorough": "managers of <=3 definitions, follow-up sequences of <=3 operations, both builds",
 }
 OUTSIDE = "cross-process / cross-version pickles; containers that are not picklable"
-REQUIRED_CLASSES = ["roundtrip", "node_class_manager", "followup_both", "independence"]
+REQUIRED_CLASSES = ["roundtrip", "node_class_manager", "followup_both", "independence", "refattr_container"]
 PROFILE_CASES = 4
 TASKS_PER_CHILD = 30
 LOCS = ["a", "n.x", "n.y", "l0"]
@@ -165,7 +165,73 @@ def run_ckey(ex, case):
             return
 
 
+def run_refattr(ex, case):
+    """containers registered with Manager.refattr() (attribute spelling mapped to item access)"""
+    xd = get_xdeps(case["build"])
+    m = xd.Manager()
+    data = {"a": ex.int("ra"), "b": ex.int("rb"), "c": 0, "d": 0}
+    g = m.refattr(data, "g")
+    plain = m.ref({"x": ex.int("px"), "y": 0}, "p")
+    g.c = g.a + g.b
+    if case["variant"] >= 1:
+        plain["y"] = g.c * 2
+    if case["variant"] >= 2:
+        g.d = plain["x"] - g.a
+    note(ex, "node_class_manager")
+    try:
+        m2 = pickle.loads(pickle.dumps(m))
+    except (Abort, Inconclusive):
+        raise
+    except BaseException as e:
+        ex.fail(f"pickle round trip of a manager with a refattr container raised {type(e).__name__}: {str(e)[:120]}")
+        return
+    note(ex, "roundtrip")
+    note(ex, "refattr_container")
+    g2, p2 = m2.containers["g"], m2.containers["p"]
+    det = {"definitions": [list(x) for x in m.dump()]}
+    if sorted(map(tuple, m.dump())) != sorted(map(tuple, m2.dump())):
+        ex.fail(f"definitions differ after the round trip: {m.dump()} vs {m2.dump()}", det)
+        return
+    try:
+        m2.verify()
+    except Exception as e:
+        ex.fail(f"verify() fails on the restored manager: {e}", det)
+        return
+    seq = ex.choose(3)
+    v1, v2 = ex.int("rf_v1"), ex.int("rf_v2")
+    outs = []
+    for (gg, pp) in ((g, plain), (g2, p2)):
+        try:
+            if seq == 0:
+                gg.a = v1
+                gg.b = v2
+            elif seq == 1:
+                gg.d = gg.c * 3
+                gg.a = v1
+            else:
+                gg.c = v1                     # the definition is replaced by a value
+                gg.a = v2
+            outs.append(None)
+        except (Abort, Inconclusive):
+            raise
+        except Exception as e:
+            outs.append(f"{type(e).__name__}: {str(e)[:60]}")
+    note(ex, "followup_both")
+    if outs[0] != outs[1]:
+        ex.fail(f"attribute-spelled follow-up assignments behave differently: original {outs[0]}, restored {outs[1]}", det)
+        return
+    if sorted(map(tuple, m.dump())) != sorted(map(tuple, m2.dump())):
+        ex.fail(f"after the follow-up assignments definitions differ: {m.dump()} vs {m2.dump()}", det)
+        return
+    for cont1, cont2, nm in ((data, g2._owner, "g"), (plain._owner, p2._owner, "p")):
+        for k in cont1:
+            if not ex.prove(same(cont1[k], cont2[k]), f"after attribute-spelled follow-up assignments on both, {nm}[{k!r}] differs between original and restored manager", det):
+                return
+
+
 def run_case(ex, case):
+    if case["mode"] == "refattr":
+        return run_refattr(ex, case)
     if case["mode"] == "ckey":
         return run_ckey(ex, case)
     xd = get_xdeps(case["build"])
@@ -311,6 +377,8 @@ def cases(tier):
             out.append({"mode": "class", "build": b, "idx": i})
         for i in range(12):
             out.append({"mode": "ckey", "build": b, "idx": i})
+        for v in range(3):
+            out.append({"mode": "refattr", "build": b, "variant": v})
         cand = [(t, dsc) for t in LOCS for dsc in U.candidates(t, LOCS, False)]
         maxd = 2 if tier == "quick" else 3
         n = 0
